@@ -13,7 +13,7 @@ for pid in checks.get("claim",[]):
 checks["checks"].sort(key=lambda c:c["property_id"])
 hooks_commits=subprocess.run("git -C /repo log --format=%H --grep='^verif:'",shell=True,capture_output=True,text=True).stdout.split()
 m={"version":1,
- "setup_cmd":"cd /verif && GOFLAGS=-mod=mod GOPROXY=off go build -tags verif -o .build/ ./cmd/...",
+ "setup_cmd":"SETUP",
  "hooks":{"guard":"verif (Go build tag)","enable":"go build -tags verif (bin/check does it on every invocation, from /repo's working tree via the replace directive in /verif/go.mod)",
   "baseline_off_cmd":"cd /repo && go test -mod=mod -json -vet=off -count=1 -timeout 25m ./...",
   "source_commits":hooks_commits,"add_only":True},
@@ -34,5 +34,8 @@ for c in checks["checks"]:
 for p in props:
     if p["id"] not in claimed:
         m["not_applicable"].append({"property_id":p["id"],"reason":checks.get("unclaimed",{}).get(p["id"],"check not built yet (bounded-exhaustive formulation exists in DESIGN.md §2; no claim is made until the check runs clean)")})
+cmds=" ".join(f"./cmd/c{p[1:]}" for p in sorted(claimed))
+pre=" ".join(f"&& bin/check {p} --prebuild" for p in sorted(claimed) if p in ("C15","C16"))
+m["setup_cmd"]=f"cd /verif && export GOFLAGS=-mod=mod GOPROXY=off && mkdir -p .build && go build -tags verif -o .build/ {cmds} {pre}"
 json.dump(m,open('/verif/MANIFEST.json','w'),indent=1)
 print("claimed",sorted(claimed))
